@@ -146,6 +146,23 @@ def run(ck):
     for t, v in (("0x1F", (31, 0)), ("0b101", (5, 0)), ("0o17", (15, 0)), ("1_000", (1000, 0)), ("0x20_0000_0000_0001", (0x20000000000001, 0)), ("1e3", (1, 3)), (".5e1", (5, 0)),
                  ("0.0000001", (1, -7)), ("0b" + "1" * 70, (2 ** 70 - 1, 0)), ("0o" + "7" * 30, (8 ** 30 - 1, 0)), ("017", (15, 0)), ("089", (89, 0)), ("9007199254740993", (9007199254740993, 0))):
         reqs.append(("lit " + hx(t), "num-special", (t, v)))
+    # ---- non-decimal integer numerals beyond 2^53: the value must be rounded once, not digit by digit
+    for _ in range(150 if quick else 4000):
+        nbits = 54 + r() % 40
+        v = (1 << (nbits - 1)) | (r() % (1 << (nbits - 1)))
+        if r() % 3 == 0:
+            v = (v >> 6 << 6) | (r() % 64)          # long run of kept bits then a few low ones: double-rounding shapes
+        if r() % 4 == 0:
+            v = (1 << (nbits - 1)) + (1 << (nbits - 54)) + 1 + r() % 3     # just above a tie
+        kind_ = r() % 3
+        t = [("0x%x" % v), ("0o%o" % v), ("0b" + bin(v)[2:])][kind_]
+        if r() % 4 == 0:
+            t = t[:2].upper() + t[2:].upper() if kind_ == 0 else t[:2].upper() + t[2:]
+        reqs.append(("num " + hx(t), "num-special", (t, (v, 0))))
+        lt = t
+        if r() % 3 == 0 and len(t) > 6:
+            lt = t[:5] + "_" + t[5:]
+        reqs.append(("lit " + hx(lt), "num-special", (lt, (v, 0))))
     # ---- integers in every radix
     ints = [0, 1, 35, 36, 255, 2 ** 31, 2 ** 32 - 1, 2 ** 53 - 1, 2 ** 53, 10 ** 15 + 7] + [r() % (1 << (1 + r() % 53)) for _ in range(300 if quick else 6000)]
     for n in ints:
